@@ -7,7 +7,9 @@ import (
 	"fmt"
 	"hash/fnv"
 	"os"
+	"runtime"
 	"runtime/debug"
+	"sync"
 	"sort"
 	"strings"
 	"testing"
@@ -53,6 +55,7 @@ type Result struct {
 	Replay     string             `json:"replay,omitempty"`
 	Case       *Case              `json:"case,omitempty"`
 	ShrinkRuns int                `json:"shrink_runs,omitempty"`
+	SweepPos   int                `json:"sweep_pos,omitempty"`
 	OtherProps int                `json:"violations_of_other_properties,omitempty"` // reported by those properties' own checks
 }
 
@@ -81,6 +84,14 @@ func RunCase(t *testing.T, c *Case, keepTrace bool) *Result {
 		return &Result{Seed: c.Seed, Harness: "unknown harness " + c.Harness}
 	}
 	res := &Result{Seed: c.Seed, Probes: map[string]int{}}
+	// No garbage collection while a run is in flight: a GC cycle can reorder runnable
+	// goroutines between two seams and with it the arrival order at the next seam.
+	// Collect between runs instead (the memory limit still guards against runaway runs).
+	gcOnce.Do(func() {
+		debug.SetGCPercent(-1)
+		debug.SetMemoryLimit(6 << 30)
+	})
+	runtime.GC()
 	func() {
 		defer func() {
 			if p := recover(); p != nil {
@@ -111,6 +122,8 @@ func RunCase(t *testing.T, c *Case, keepTrace bool) *Result {
 }
 
 var traceWanted bool
+
+var gcOnce sync.Once
 
 func sigOf(v Violation) string { return v.Property + "|" + v.Rule + "|" + v.Sig }
 
